@@ -18,7 +18,8 @@ RULE_TEXT = ("C02-R: on every loop-body path of Interface::run the path variable
              "and its `header` is the path the header parser returned; C02-S: every future is awaited in place and the "
              "crate defines no Future/poll machinery."
              " C02-K: the buffer discipline of process (rules K1-K7 of C07) - run is handed one whole message per call."
-             " C02-C04X: a unit's response - terminator and flush - is completed by execute itself, which run awaits in place (rule C04-X).")
+             " C02-C04X: a unit's response - terminator and flush - is completed by execute itself, which run awaits in place (rule C04-X)."
+             " C02-H also: parse resolves the header once, with (root, path) - no second lookup from the root.")
 
 COMPOUND = "microscpi::parser::compound_command_program_header"
 COMMON = "microscpi::parser::common_command_program_header"
@@ -343,3 +344,36 @@ def rule_H(ck, lib):
         ck.judge(ok, "C02-H", "command_program_header:path#%d" % n, "compound(root, path) first, common(root) only on its failure",
                  "the header is also looked up another way: %s" % why, data=pathsum.show_exit(x)[:1200])
     ck.floor("C02-H", "paths of command_program_header", n, 2)
+    rule_H2(ck, lib, "C02-H")
+
+
+def rule_H2(ck, lib, rid):
+    """... and `parse` itself resolves the header of a unit once, relative to its own (root, path) arguments: no path of
+    parse applies a header parser a second time or with another context (a retry from the root would make a header that is
+    undefined where it stands select a handler)."""
+    PARSE = "microscpi::parser::parse"
+    ex, ps = ctx.summarize(lib, PARSE, ck)
+    if not ck.anchor(rid, PARSE, ex):
+        return
+    b = lib.body(PARSE)
+    pn = [p.get("name") for p in b["params"]]
+    if not ck.judge(len(pn) == 3, rid, "parse:params", "parse(root, path, input)", "unexpected parameters of parse: %s" % pn):
+        return
+    want = (("param", pn[0]), ("param", pn[1]))
+    n = 0
+    worst = None
+    for x in ex:
+        apps = []
+        for e in x.effects:
+            if e[0] == "apply" and e[1][0] == "call" and e[1][1].split("::")[-1] in ("command_program_header", "compound_command_program_header", "common_command_program_header"):
+                apps.append((e[1][1].split("::")[-1], tuple(pathsum.strip_sites(t) for t in e[1][2])))
+        if not apps:
+            continue
+        n += 1
+        okp = len(apps) == 1 and (apps[0][1] == want or (apps[0][0] == "common_command_program_header" and apps[0][1] == want[:1]))
+        if not okp and worst is None:
+            worst = (apps, x)
+    ck.judge(worst is None, rid, "parse:header-once", "every path of parse resolves the header once, with parse's own (root, path)",
+             "parse resolves a header %s: a header that is undefined relative to the current path is looked up again / elsewhere"
+             % ([(a, [show_term(t) for t in c]) for a, c in worst[0]] if worst else ""), data=pathsum.show_exit(worst[1])[:1500] if worst else None)
+    ck.floor(rid, "paths of parse that resolve a header", n, 4)
